@@ -53,18 +53,28 @@ def gen(rng, n):
             nodes.append(['l', full, 'no/where'])
         nodes += [['f', parent + '/sibling', 'sib'], ['f', root + '/other1', 'o1'], ['f', lay.home + '/other2', 'o2']]
         tdopt = []
+        putenv = {}
         if rng.random() < 0.15:
             tdopt = ['--trash-dir', root + '/mytd']
+        elif where == 'vol' and rng.random() < 0.3:
+            # no usable trash directory on the entry's own volume: the home fallback moves it ACROSS file systems (copy + delete),
+            # and the restore moves it back the same way: content, modes and mtimes must survive both copies
+            lay.top[root] = ['file', 'file']
+            lay.tree = [e for e in lay.tree if not (e[1] == lay.j(root, '.Trash') or e[1].startswith(lay.j(root, '.Trash') + '/')
+                                                    or e[1] == lay.top2(root) or e[1].startswith(lay.top2(root) + '/') or e[1] == lay.j(root, 'realtrash'))]
+            lay.tree += [['f', lay.j(root, '.Trash'), 'not a directory'], ['f', lay.top2(root), 'not a directory']]
+            tdopt = ['--home-fallback']
+            putenv = {'TRASH_ENABLE_HOME_FALLBACK': '1'}
         sort = rng.choice(['date', 'path', 'none', None])
         scope_kind = rng.choice(['path', 'parent-arg', 'cwd-parent', 'ancestor', 'root'])
-        steps = [{'cmd': 'put', 'argv': tdopt + ['--', full], 'now': [2024, 5, 6, 7, 8, 9, 0]}]
+        steps = [{'cmd': 'put', 'argv': tdopt + ['--', full], 'now': [2024, 5, 6, 7, 8, 9, 0], 'env': putenv}]
         # a history in between
         hist = []
         for _ in range(rng.randint(0, 3)):
             r = rng.random()
             if r < 0.4:
                 hist.append({'cmd': 'put', 'argv': tdopt + ['--', rng.choice([root + '/other1', lay.home + '/other2', parent + '/sibling'])],
-                             'now': [2024, 5, 6, 7, 9, rng.randint(0, 59), 0]})
+                             'now': [2024, 5, 6, 7, 9, rng.randint(0, 59), 0], 'env': putenv})
             elif r < 0.6:
                 hist.append({'cmd': 'rm', 'argv': [rng.choice(['zzz*', 'other1', 'no-such'])]})
             elif r < 0.8:
@@ -87,12 +97,12 @@ def gen(rng, n):
             cwd, arg = '/', [root]
         else:
             cwd, arg = '/', ['/']
-        rargv = arg + (['--sort', sort] if sort else []) + ([tdopt[0], tdopt[1]] if tdopt else []) + (['--overwrite'] if rng.random() < 0.2 else [])
+        rargv = arg + (['--sort', sort] if sort else []) + ([tdopt[0], tdopt[1]] if len(tdopt) == 2 else []) + (['--overwrite'] if rng.random() < 0.2 else [])
         steps.append({'cmd': 'restore', 'argv': rargv, 'stdin': '\n', 'cwd_override': cwd})
         scn = lay.scenario(steps, cwd=cwd, extra=nodes)
         scns.append(scn)
         metas.append({'full': full, 'kind': kind, 'where': where, 'sort': sort, 'scope': scope_kind, 'rmparent': rmparent, 'name': name,
-                      'td': bool(tdopt), 'parent': parent})
+                      'td': len(tdopt) == 2, 'xdev': bool(putenv), 'parent': parent})
     return scns, metas
 
 
@@ -187,7 +197,7 @@ def judge(run, scn, meta, res, section='roundtrip'):
     other = [p for p in ch if not ok_area(p) and not any(engine.under(p, td) for td in tds)]
     if other:
         run.fail('oracle', 'the restore changed something else', dict(case, changed=[esc(p) for p in other[:6]]), key='collateral', section=section)
-    run.nontriv((esc(meta['name'])[:12], meta['kind'], meta['where'], meta['td'], meta['sort'], meta['scope'], meta['rmparent']))
+    run.nontriv((esc(meta['name'])[:12], meta['kind'], meta['where'], meta['td'], meta.get('xdev'), meta['sort'], meta['scope'], meta['rmparent']))
 
 
 def replay(run, payload):
